@@ -192,7 +192,7 @@ func newUBJEnc(t *rapid.T) *ref.UBJEnc {
 func init() {
 	register(&Property{
 		ID:   "C05",
-		Rule: "rapid draws a value tree (ints over [-2^64,2^64-1], float32/64 bit patterns, arbitrary byte strings/keys, nested arrays/maps) and renders it with the harness' constructive CBOR encoder under drawn choices (argument width minimal or wider, definite/indefinite containers, byte string vs array, null/undefined); 1 in 5 cases splices exactly one unsupported item (negative below -2^63, tag, half float, indefinite string, simple value, non-text key) at a drawn position; oracle = independent RFC 7049 decoder; non-trivial = non-minimal width, indefinite container, negative with top argument bit, depth>=2 or unsupported item; distinct by document hash",
+		Rule: "rapid draws a value tree (ints over [-2^64,2^64-1], float32/64 bit patterns, arbitrary byte strings/keys, nested arrays/maps) and renders it with the harness' constructive CBOR encoder under drawn choices (argument width minimal or wider, definite/indefinite containers, byte string vs array, null/undefined); 1 in 5 cases splices exactly one unsupported item (negative below -2^63, tag, half float, indefinite string, simple value, non-text key) at a drawn position; deterministic part: 21 boundary values x every argument width that holds them x {unsigned, negative}, string/array/map lengths in every width, every unsupported item, each in 6 nesting contexts (top, definite/indefinite array and map, indefinite inside definite); oracle = independent RFC 7049 decoder; non-trivial = non-minimal width, indefinite container, negative with top argument bit, depth>=2 or unsupported item; distinct by document hash",
 		New:  func() any { return &DocCase{} },
 		Draw: func(t *rapid.T) any {
 			if rapid.IntRange(0, 4).Draw(t, "unsup") == 4 {
@@ -205,6 +205,7 @@ func init() {
 			return &DocCase{Doc: e.Out}
 		},
 		Check: checkC05,
+		Enum:  enumC05,
 	})
 	register(&Property{
 		ID:   "C06",
